@@ -18,6 +18,8 @@ MUTANTS = [
     {'name': 'only-clayton', 'rule': 'D1.state', 'file': I, 'old': "    for copula_class in [Clayton, Gumbel]:", 'new': "    for copula_class in [Clayton]:"},
     {'name': 'rank-by-argsort', 'rule': 'D3.index', 'file': 'bivariate/__init__.py', 'count': 1,
      'old': "    score_left = pd.Series(diff_left).rank(ascending=False)", 'new': "    score_left = len(diff_left) - np.argsort(np.asarray(diff_left))"},
+    {'name': 'interior-rows-only', 'rule': 'D1.state', 'file': I, 'old': '    frank = Frank()\n    frank.fit(X)', 'new': '    X = X[np.logical_and(X > 0, X < 1).all(axis=1)]\n    frank = Frank()\n    frank.fit(X)'},
+    {'name': 'tail-signature-swapped-caller-kept', 'rule': 'D3.index', 'file': I, 'old': 'def _compute_tail(c, z):', 'new': 'def _compute_tail(z, c):'},
 ]
 REWRITES = [
     {'name': 'argmax-method', 'file': I, 'old': "selected_copula = np.argmax(score.to_numpy())", 'new': "selected_copula = score.to_numpy().argmax()"},
@@ -25,4 +27,5 @@ REWRITES = [
     {'name': 'negated-distance-argmax', 'file': I, 'old': "    score = score_left + score_right + score_both\n", 'new': "    score = score_both + score_left + score_right\n"},
     {'name': 'rank-by-double-argsort', 'file': 'bivariate/__init__.py',
      'old': "    score_left = pd.Series(diff_left).rank(ascending=False)", 'new': "    score_left = len(diff_left) - np.argsort(np.argsort(np.asarray(diff_left)))"},
+    {'name': 'tail-signature-swapped-with-caller', 'edits': [{'file': I, 'old': 'def _compute_tail(c, z):', 'new': 'def _compute_tail(z, c):'}, {'file': I, 'old': '_compute_tail(copula.cumulative_distribution(X_right), right_tail)', 'new': '_compute_tail(right_tail, copula.cumulative_distribution(X_right))'}]},
 ]
